@@ -705,7 +705,11 @@ func (e *Exec) next(fr *frame, x *ssa.Next) Value {
 		b := bs[i]
 		if b.IsConst() && b.K >= 0x80 {
 			// concrete multi-byte rune
-			r, size := decodeRuneConc(it.s.conc[i:])
+			var raw []byte
+			for k := i; k < len(bs) && k < i+4 && bs[k].IsConst(); k++ {
+				raw = append(raw, byte(bs[k].K))
+			}
+			r, size := decodeRuneConc(string(raw))
 			it.pos += size
 			return Tuple{tTrue, K(int64(i)), K(int64(r))}
 		}
@@ -951,15 +955,21 @@ func (e *Exec) convert(v Value, from, to types.Type) Value {
 				if el, ok := fu.(*types.Slice); ok {
 					if w, _, _ := intType(el.Elem()); w == 32 {
 						// []rune
-						var sb strings.Builder
+						// concrete runes are UTF-8 encoded; symbolic runes are restricted to ASCII (one byte)
+						var out []*Term
 						for _, b := range bs {
 							if !b.IsConst() {
-								// symbolic runes restricted to ASCII
-								return strFromBytes(bs)
+								out = append(out, b)
+								continue
 							}
-							sb.WriteRune(rune(b.K))
+							for _, c := range []byte(string(rune(b.K))) {
+								out = append(out, K(int64(c)))
+							}
 						}
-						return Str{conc: sb.String()}
+						if len(out) == 0 {
+							return Str{}
+						}
+						return strFromBytes(out)
 					}
 				}
 				return strFromBytes(bs)
